@@ -84,6 +84,7 @@ var (
 type seqCase struct {
 	Ops   []int `json:"ops"`
 	Empty bool  `json:"with_empty_key_id"`
+	NoDB  bool  `json:"no_location_database,omitempty"` // the collectors are built without a database: every client's location is ""
 }
 
 func addrOf(ip int, port int) net.Addr {
@@ -100,6 +101,7 @@ type model struct {
 	clients map[pair]*refClient
 	perKey  map[string]float64
 	perLoc  map[string]float64
+	nodb    bool // no location database: every location is ""
 }
 
 func (m *model) open(p pair) {
@@ -120,8 +122,15 @@ func (m *model) close(p pair) {
 	if c.count == 0 {
 		d := (m.now - c.since).Seconds()
 		m.perKey[p.key] += d
-		m.perLoc[locOf[p.ip]] += d
+		m.perLoc[m.loc(p.ip)] += d
 	}
+}
+
+func (m *model) loc(ip int) string {
+	if m.nodb {
+		return ""
+	}
+	return locOf[ip]
 }
 
 // totals up to now (open tunnels included)
@@ -137,7 +146,7 @@ func (m *model) totals() (map[string]float64, map[string]float64) {
 		if c.count > 0 {
 			d := (m.now - c.since).Seconds()
 			k[p.key] += d
-			l[locOf[p.ip]] += d
+			l[m.loc(p.ip)] += d
 		}
 	}
 	return k, l
@@ -178,12 +187,16 @@ func compare(got, want map[string]float64) string {
 
 func runSeq(ctx *engine.Ctx, sc seqCase) {
 	vrt.SetPassNow(vrt.Epoch)
-	smx, err := outline_prometheus.NewServiceMetrics(fakeDB{})
+	var db ipinfo.IPInfoMap = fakeDB{}
+	if sc.NoDB {
+		db = nil
+	}
+	smx, err := outline_prometheus.NewServiceMetrics(db)
 	if err != nil {
 		panic(err)
 	}
 	var sm service.ServiceMetrics = smx
-	m := &model{clients: map[pair]*refClient{}, perKey: map[string]float64{}, perLoc: map[string]float64{}}
+	m := &model{clients: map[pair]*refClient{}, perKey: map[string]float64{}, perLoc: map[string]float64{}, nodb: sc.NoDB}
 	openTCP := map[pair][]service.TCPConnMetrics{}
 	openUDP := map[pair][]service.UDPConnMetrics{}
 	port := 1000
@@ -296,12 +309,12 @@ func ttSeq(ctx *engine.Ctx) {
 		depth = 6
 	}
 	// the alphabet without the empty-key pair, and (at depth-1) with it
-	for pass := 0; pass < 3; pass++ {
+	for pass := 0; pass < 4; pass++ {
 		var alpha []int
 		d := depth
 		for op := 0; op < nOpsNoEmpty; op++ {
 			isEmpty := op == opOpenTCP+3 || op == opCloseTCP+3
-			if pass == 0 && isEmpty {
+			if (pass == 0 || pass == 3) && isEmpty {
 				continue
 			}
 			if pass == 1 && (op == opOpenTCP+2 || op == opCloseTCP+2 || op == opOpenUDP+1 || op == opCloseUDP+1 || op == opUnauth || op == opTick2) {
@@ -310,6 +323,10 @@ func ttSeq(ctx *engine.Ctx) {
 			alpha = append(alpha, op)
 		}
 		if pass == 1 {
+			d = depth - 1
+		}
+		if pass == 3 {
+			// the same alphabet as pass 0 on collectors built without a location database
 			d = depth - 1
 		}
 		if pass == 2 {
@@ -335,7 +352,7 @@ func ttSeq(ctx *engine.Ctx) {
 				ops[i] = alpha[c%int64(len(alpha))]
 				c /= int64(len(alpha))
 			}
-			sc := seqCase{Ops: ops, Empty: pass == 1}
+			sc := seqCase{Ops: ops, Empty: pass == 1, NoDB: pass == 3}
 			hk.Guard(ctx, "tt-seq", sc, func() { runSeq(ctx, sc) })
 			if code == 0 {
 				ctx.Res.Sample(map[string]any{"unit": "tt-seq", "case": sc})
